@@ -71,16 +71,27 @@ pub fn lex_number(source: &[char]) -> Option<FoundToken> {
         return None;
     }
 
-    let end = source
+    // Only look at the run of characters that can be part of a decimal literal, so that a digit
+    // somewhere later in the text has no influence on how this number is lexed.
+    let candidate_len = source
         .iter()
-        .enumerate()
-        .rev()
-        .find_map(|(i, v)| v.is_ascii_digit().then_some(i))?;
+        .take_while(|c| c.is_ascii_digit() || matches!(c, '.' | 'e' | 'E' | '+' | '-'))
+        .count();
+
+    let end = source[..candidate_len]
+        .iter()
+        .rposition(|c| c.is_ascii_digit())?;
 
     let mut s: String = source[0..end + 1].iter().collect();
 
     // Find the longest possible valid number
     while !s.is_empty() {
+        // A number ends in a digit: `23.` is the number 23 followed by a period.
+        if !s.ends_with(|c: char| c.is_ascii_digit()) {
+            s.pop();
+            continue;
+        }
+
         if let Ok(n) = s.parse::<f64>() {
             let precision = s.chars().rev().position(|c| c == '.').unwrap_or_default();
 
